@@ -129,6 +129,36 @@ fn block_v(b: &Block) -> Value {
 fn macro_v(m: &syn::Macro) -> Value {
   let name = m.path.segments.last().map(|s| s.ident.to_string()).unwrap_or_default();
   let line = ln(m.span());
+  if name == "vec" {
+    struct Rep(Expr, Expr);
+    impl syn::parse::Parse for Rep {
+      fn parse(input: syn::parse::ParseStream) -> Result<Self> {
+        let a: Expr = input.parse()?;
+        input.parse::<Token![;]>()?;
+        let b: Expr = input.parse()?;
+        Ok(Rep(a, b))
+      }
+    }
+    if let Ok(Rep(a, b)) = syn::parse2::<Rep>(m.tokens.clone()) {
+      return json!({"k":"repeat","e":expr_v(&a),"n":expr_v(&b),"ln":line});
+    }
+  }
+  if name == "matches" {
+    struct Mt(Expr, Pat, Option<Expr>);
+    impl syn::parse::Parse for Mt {
+      fn parse(input: syn::parse::ParseStream) -> Result<Self> {
+        let a: Expr = input.parse()?;
+        input.parse::<Token![,]>()?;
+        let p: Pat = Pat::parse_multi_with_leading_vert(input)?;
+        let g = if input.peek(Token![if]) { input.parse::<Token![if]>()?; Some(input.parse::<Expr>()?) } else { None };
+        let _ = input.parse::<Option<Token![,]>>();
+        Ok(Mt(a, p, g))
+      }
+    }
+    if let Ok(Mt(a, p, g)) = syn::parse2::<Mt>(m.tokens.clone()) {
+      return json!({"k":"matches","e":expr_v(&a),"pat":pat_v(&p),"guard":g.as_ref().map(|x| expr_v(x)),"ln":line});
+    }
+  }
   let parser = Punctuated::<Expr, Token![,]>::parse_terminated;
   match parser.parse2(m.tokens.clone()) {
     Ok(args) => json!({"k":"macro","name":name,"args":args.iter().map(expr_v).collect::<Vec<_>>(),"ln":line}),
